@@ -782,7 +782,67 @@ func c08Exec(op []string) string {
 	var out strings.Builder
 	out.WriteString(prefix + "ok")
 	c08Dump(&out, target.Elem())
+	c08Scribble(target.Elem(), 0)
 	return out.String()
+}
+
+
+// c08Scribble overwrites, in place, everything the result holds by reference (slice elements, map values) after the result
+// was printed — what a caller may do with a value that was handed to it.  State that the unmarshaller shares between
+// calls (a cached default handed out without a copy, a pooled buffer) then shows in the next result that relies on it.
+func c08Scribble(v reflect.Value, depth int) {
+	if depth > 8 {
+		return
+	}
+	switch v.Kind() {
+	case reflect.Ptr, reflect.Interface:
+		if !v.IsNil() {
+			c08Scribble(v.Elem(), depth+1)
+		}
+	case reflect.Struct:
+		for i := 0; i < v.NumField(); i++ {
+			if v.Type().Field(i).IsExported() {
+				c08Scribble(v.Field(i), depth+1)
+			}
+		}
+	case reflect.Slice:
+		for i := 0; i < v.Len(); i++ {
+			e := v.Index(i)
+			c08Scribble(e, depth+1)
+			c08ScribbleScalar(e)
+		}
+	case reflect.Map:
+		for _, k := range v.MapKeys() {
+			e := v.MapIndex(k)
+			c08Scribble(e, depth+1)
+			n := reflect.New(v.Type().Elem()).Elem()
+			n.Set(e)
+			if c08ScribbleScalar(n) {
+				v.SetMapIndex(k, n)
+			}
+		}
+	}
+}
+
+func c08ScribbleScalar(e reflect.Value) bool {
+	if !e.CanSet() {
+		return false
+	}
+	switch e.Kind() {
+	case reflect.String:
+		e.SetString("~scribbled~")
+	case reflect.Bool:
+		e.SetBool(!e.Bool())
+	case reflect.Int, reflect.Int8, reflect.Int16, reflect.Int32, reflect.Int64:
+		e.SetInt(77)
+	case reflect.Uint, reflect.Uint8, reflect.Uint16, reflect.Uint32, reflect.Uint64:
+		e.SetUint(77)
+	case reflect.Float32, reflect.Float64:
+		e.SetFloat(77.5)
+	default:
+		return false
+	}
+	return true
 }
 
 // ---------------------------------------------------------------- generator
